@@ -34,6 +34,22 @@ def build(tier, rnd):
                 st = g.statement(rnd.choice([0, 1, 1, 2]) if i < n else rnd.choice([0, 0, 1]), kinds=[k])
             stmts.append(st)
         out.append(stmts)
+    # statement-local names that collide with table names: a CTE (or derived-table alias) spelled like the bare name of a table the statement
+    # reads under an explicit schema - sa, which is also one of the default schemas tried - or without one
+    from vlib.sqlgen import Base, CteRef, Derived, Group, Item, Select, Stmt, With, col
+    for i in range(12 if tier == "quick" else 80):
+        nm = f"tb_cn{i}"
+        inner_schema = rnd.choice(["sa", "sa", "sb"])  # never unqualified: WITH t AS (SELECT .. FROM t) is read by the tool as a self-reference
+        body_tab = Base(nm, inner_schema)
+        cte_q = Select([Item(col("c_1")), Item(col("c_2"), "o_2")], [Group(body_tab)])
+        k = i % 3
+        if k == 0:
+            q = With([(nm, cte_q)], Select([Item(col("c_1", nm)), Item(col("o_2"))], [Group(CteRef(nm))]))
+        elif k == 1:
+            q = With([(nm, cte_q)], Select([Item(col("c_1", nm)), Item(col("c_3", "x1"))], [Group(CteRef(nm), [("inner", Base(f"tb_co{i}", rnd.choice([None, "sa"]), "x1"), "on")])]))
+        else:
+            q = Select([Item(col("c_1", nm)), Item(col("o_2", nm))], [Group(Derived(cte_q, nm))])
+        out.append([Stmt(rnd.choice(["insert", "ctas"]), Base(f"tb_cw{i}", rnd.choice([None, "sa"])), q)])
     return out
 
 
